@@ -231,6 +231,13 @@ class Built:
                     out.append(o.__xpm__.raw_identifier.all.hex())
                 elif k == "jobpath":
                     out.append("path:" + str(o.__xpm__.job.relpath))
+                elif k == "resubmit":
+                    # a second submit() of an already submitted task object must be refused and change nothing
+                    try:
+                        o.submit(run_mode=RunMode.DRY_RUN, init_tasks=[self.allobjs[i] for i in op.get("init", [])])
+                        out.append("ok")
+                    except Exception as e:  # noqa
+                        out.append("rejected:" + exc_name(e))
                 else:
                     raise ValueError(k)
             except (AttributeError, SealedError, AssertionError) as e:
